@@ -148,6 +148,18 @@ CHECKS = {
             "Tape alphabets containing the marker characters '^' or '_' are outside the model (typed markers) and are not generated. "
             "The model is of the repaired left-boundary branch (DESIGN section 8 row 11); on a tree without that repair the check reports "
             "the defect as a violation.", "7/C17"),
+    "C12": ("Coq theorems about Kleene state elimination on GNFAs with expression-AST labels + correspondence through the library's "
+            "own regex parser and the proved NFA comparator",
+            "Proved (unbounded in states, alphabet, word length) at the level of expression ASTs: ripping an inner state preserves the "
+            "GNFA's language; ripping all inner states in ANY order leaves an expression denoting the GNFA's language; the GNFA built "
+            "from a valid DFA/NFA (fresh initial/final state, parallel edges merged by union, empty-string edges) has the source's "
+            "language; hence the eliminated expression denotes exactly the source's language (C12_dfa_to_regex_partial / "
+            "C12_nfa_to_regex_partial). PARTIAL: the string assembly of to_regex (bracket rules, '?', '|') and the library's parser are "
+            "not modelled in Coq (full statement kept as C12_to_regex_statement); that half is checked on every run: the "
+            "implementation's string must be accepted by NFA.from_regex and the compiled NFA must equal the source's language for all "
+            "words (proved comparator), on generated DFAs/NFAs incl. empty-string bypass shapes; the AST model is cross-checked against "
+            "the source by a proved derivative matcher on all words up to length 5.",
+            "", "7/C12"),
 }
 
 PENDING = {}
